@@ -161,6 +161,7 @@ type overlayEntry struct {
 }
 
 type txState struct {
+	readOnly bool
 	active  bool
 	overlay map[string]map[string][]interface{} // table -> key -> row (nil = deleted)
 	present map[string]map[string]bool          // whether key is in overlay
